@@ -288,8 +288,23 @@ func c12Case(w *rt.W, input string, cfg c12Cfg) c12Verdict {
 		err := s.UnmarshalJSON([]byte(input)) // uses DefaultRule == cfg.rule
 		rs = append(rs, res{"Size.UnmarshalJSON", s, err})
 	}
+	// Size.UnmarshalText always parses in text mode under DefaultRule's RuleDisableUnit bit (DefaultRule == cfg.rule here)
+	vText := v
+	if cfg.limit == 0 || len(input) <= cfg.limit {
+		vText = c12TextVerdict(input, cfg.rule&size.RuleDisableUnit != 0)
+	}
+	{
+		var s size.Size
+		err := s.UnmarshalText([]byte(input))
+		rs = append(rs, res{"Size.UnmarshalText", s, err})
+	}
 	w.Eval(int64(len(rs)))
+	jsonV := v
 	for _, r := range rs {
+		v := jsonV
+		if r.path == "Size.UnmarshalText" {
+			v = vText
+		}
 		fail := func(key, got, want string) {
 			w.Fail(key, "json", rt.Args("input", input, "rule", int(cfg.rule), "max_object_keys", cfg.maxKeys, "max_input_length", cfg.limit, "path", r.path, "oracle", v.why), got, want, r.path+" disagrees with the JSON-form oracle ("+v.why+")")
 		}
@@ -674,6 +689,21 @@ func runC12(c *rt.Ctx) {
 					for _, suf := range c12Suffixes {
 						c12Case(w, doc+suf, cfg)
 					}
+					// garbage far behind the value: beyond any read-ahead chunk of a streaming decoder (512, 4096 bytes)
+					if i%16 == 0 {
+						for _, pad := range []int{500, 509, 510, 511, 512, 513, 600, 1023, 1024, 1025, 4095, 4096, 4097, 9000} {
+							ws := strings.Repeat(" ", pad)
+							if pad%2 == 1 {
+								ws = strings.Repeat("\n ", pad/2) + "\t"
+							}
+							c12Case(w, doc+ws+"x", cfg)
+							c12Case(w, doc+ws+"1", cfg)
+							c12Case(w, doc+ws+"}", cfg)
+							c12Case(w, ws+doc+ws, cfg)
+							c12Case(w, doc+ws+doc, cfg)
+						}
+						w.ClassN("garbage-behind-long-whitespace", 1)
+					}
 					w.ClassN("truncations-and-suffixes", int64(len(doc)+len(c12Suffixes)))
 					w.NTHash(rt.Hash64(doc, "mal", fmt.Sprint(int(cfg.rule), cfg.maxKeys)))
 				}
@@ -694,7 +724,7 @@ func runC12(c *rt.Ctx) {
 			}
 		})
 	}
-	for _, cl := range []string{"verdict-0", "verdict-1", "verdict-2", "object-permutations", "truncations-and-suffixes",
+	for _, cl := range []string{"verdict-0", "verdict-1", "verdict-2", "object-permutations", "truncations-and-suffixes", "garbage-behind-long-whitespace",
 		"single-cause-missing-value-key", "single-cause-missing-unit-key", "single-cause-duplicated-value-key", "single-cause-duplicated-unit-key",
 		"single-cause-invalid-type", "single-cause-object-too-big", "single-cause-unexpected-key", "single-cause-object-form-disabled"} {
 		c.Require(cl, 20)
